@@ -459,7 +459,7 @@ impl Monitor for C15 {
          monogamous, cycle-with-tail families, wide diagrams in which 17-48 operations share a layer, plus raw multigraph adjacencies for the hook-exposed converse/indegree/kahn. Oracle: dependency relation \
          computed by loops; cyclic set by stripping (cross-checked against transitive closure); clauses unvisited-iff-cyclic, layer(y)>layer(x), all layers \
          below the longest chain length; grouped form lists each visited operation once in its own group. non-trivial = >=2 operations (vertices) with >=1 \
-         dependency; distinct = hash of the plain diagram / adjacency."
+         dependency; distinct = hash of the plain diagram / adjacency. Also: hooks dense_relative_indegree / sparse_relative_indegree / node_adjacency_from_incidence, codomains of the adjacency results, a dependency of multiplicity 80, 80 parallel dependencies, a ring of 600 operations with a tail of 300; any non-zero flag reads as unvisited."
     }
     fn corpus_len(&self) -> u64 {
         corpus().len() as u64
